@@ -186,7 +186,7 @@ func (ls *liveSession) Close() {
 	go func() { ls.Sess.Shutdown(); close(done) }()
 	select {
 	case <-done:
-	case <-time.After(20 * time.Second):
+	case <-time.After(2 * time.Second):
 	}
 }
 
